@@ -481,3 +481,39 @@ func VerifDataURIRuns(n int) {
 	}
 	verifDataURICheck(in, useStub, "text/y")
 }
+
+// VerifMediatypeQuoted: Mediatype on strings of n bytes over the alphabet { space, '"', 'A', ';' }:
+// the interplay of stripped whitespace and several quoted strings needs more bytes than the all-byte-values
+// harness reaches.
+func VerifMediatypeQuoted(n int) {
+	buf := vBytes("in", n+2)
+	in := buf[:n]
+	nq := 0
+	for _, c := range in {
+		vAssume(vB2I(c == ' ')+vB2I(c == '"')+vB2I(c == 'A')+vB2I(c == ';') != 0)
+		nq += vB2I(c == '"')
+	}
+	vAssume(nq%2 == 0) // quoted strings are terminated
+	orig := append([]byte(nil), in...)
+	g0, g1 := buf[n], buf[n+1]
+	out := Mediatype(in)
+	vOutput("out", out)
+	vAssert(len(out) <= n, "never longer")
+	vAssert(buf[n] == g0 && buf[n+1] == g1, "guard bytes untouched")
+	vAssert(refEq(out, refMediatype(orig)), "only lowercases and strips whitespace outside quoted strings")
+	vReach("end")
+}
+
+var verifDataURITypeHeads = []string{"text/plain", "TEXT/Plain", "text/plain;charset=us-ascii", "text/y;charset=us-ascii", "text/y;charset=US-ASCII;a=b"}
+
+// VerifDataURIHeadTail: data:<head><n bytes over { x 2 ; = a space }>,abc : what follows the default type and the
+// default charset decides whether they may be dropped (text/plainx is not text/plain, charset=us-asciix is not us-ascii).
+func VerifDataURIHeadTail(n int) {
+	head := verifDataURITypeHeads[vChoice("head", len(verifDataURITypeHeads))]
+	t := vBytes("t", n)
+	for _, c := range t {
+		vAssume(vB2I(c == 'x')+vB2I(c == '2')+vB2I(c == ';')+vB2I(c == '=')+vB2I(c == 'a')+vB2I(c == ' ') != 0)
+	}
+	in := append(append(append(append(make([]byte, 0, n+64), "data:"...), head...), t...), ",abc"...)
+	verifDataURICheck(in, false, "")
+}
